@@ -17,16 +17,18 @@ pub enum Lay {
     Compress,
     Encrypt,
     Both,
+    /// same two layers, options given in the other order
+    BothRev,
     Default,
 }
 
 impl Lay {
-    const ALL: [Lay; 5] = [Lay::None, Lay::Compress, Lay::Encrypt, Lay::Both, Lay::Default];
+    const ALL: [Lay; 6] = [Lay::None, Lay::Compress, Lay::Encrypt, Lay::Both, Lay::BothRev, Lay::Default];
     fn encrypted(self) -> bool {
-        matches!(self, Lay::Encrypt | Lay::Both | Lay::Default)
+        matches!(self, Lay::Encrypt | Lay::Both | Lay::BothRev | Lay::Default)
     }
     fn compressed(self) -> bool {
-        matches!(self, Lay::Compress | Lay::Both | Lay::Default)
+        matches!(self, Lay::Compress | Lay::Both | Lay::BothRev | Lay::Default)
     }
     fn args(self) -> Vec<&'static str> {
         match self {
@@ -34,6 +36,7 @@ impl Lay {
             Lay::Compress => vec!["-l", "compress"],
             Lay::Encrypt => vec!["-l", "encrypt"],
             Lay::Both => vec!["-l", "compress", "-l", "encrypt"],
+            Lay::BothRev => vec!["-l", "encrypt", "-l", "compress"],
             Lay::Default => vec![],
         }
     }
@@ -423,7 +426,7 @@ pub fn run(started: Instant) -> i32 {
         rep,
         Meta {
             level: "exploration",
-            rule: "7 generated file trees (empty files, nested directories, unicode and spaces, sizes around the chunk and block sizes, path lengths 99/100/101/156/260 bytes) x layer options {none, compress, encrypt, both, default} x levels x key sets, with the mlar binary built from the working tree (scaled constants; plus trees with files of 128 KiB+-1 and 4 MiB+-1 on the production-constant binary). Pipeline per job: keygen; create (file list or directory recursion); then list, list -vv (humansize + SHA-256), cat of every file, extract (linear and --glob '*', no extra files), extract of one name, to-tar (entries parsed with the tar crate); convert to each other layer/key choice and repair of the intact archive, each followed by the same readers; create|convert|repair chains; negative runs (wrong key, missing key, key for an unencrypted archive) for list/extract/cat/to-tar/convert(/repair) must exit non-zero and leave no output content. transitions = mlar invocations".to_string(),
+            rule: "7 generated file trees (empty files, nested directories, unicode and spaces, sizes around the chunk and block sizes, path lengths 99/100/101/156/260 bytes) x layer options {none, compress, encrypt, both (options in either order), default} x levels x key sets, with the mlar binary built from the working tree (scaled constants; plus trees with files of 128 KiB+-1 and 4 MiB+-1 on the production-constant binary). Pipeline per job: keygen; create (file list or directory recursion); then list, list -vv (humansize + SHA-256), cat of every file, extract (linear and --glob '*', no extra files), extract of one name, to-tar (entries parsed with the tar crate); convert to each other layer/key choice and repair of the intact archive, each followed by the same readers; create|convert|repair chains; negative runs (wrong key, missing key, key for an unencrypted archive) for list/extract/cat/to-tar/convert(/repair) must exit non-zero and leave no output content. transitions = mlar invocations".to_string(),
             exhaustive: true,
             bounds: json!({"jobs": js.len()}),
             assumptions: vec!["human-readable sizes are formatted with the same humansize crate as the tool".to_string()],
@@ -439,6 +442,7 @@ pub fn replay(path: &str) -> i32 {
         "Compress" => Lay::Compress,
         "Encrypt" => Lay::Encrypt,
         "Both" => Lay::Both,
+        "BothRev" => Lay::BothRev,
         _ => Lay::Default,
     };
     let j = Job {
